@@ -130,6 +130,9 @@ impl Prop for C11 {
             } else {
                 (10 + t.draw(CFG, 1_000_000) as u32, 2_000_000 + t.draw(CFG, 1_000_000) as u32, "")
             };
+            // 2400 (The Ship) and 240 (Counter-Strike: Source) select a different wire layout in the
+            // client; a server of another game does not speak it, so such a pairing is outside the domain
+            let main = if main == 2400 || main == 240 { main + 7 } else { main };
             let engine = if rel == 3 {
                 Engine::Source(None)
             } else if has_ded {
